@@ -404,7 +404,7 @@ func runNilMapWrite(c *Ctx) {
 			}
 			key := strings.TrimSuffix(kg.Key("nil-map-write "+fieldOwner(fa)+" in "+core.FuncName(fn)), "#0")
 			r.Add(core.Obligation{Rule: "nil-map-write", Key: key, Func: core.FuncName(fn), Pos: c.P.Pos(core.PosOf(i)), Status: st,
-				Basis: "the assignment is under a test that the map is not nil",
+				Basis:  "the assignment is under a test that the map is not nil",
 				Detail: fieldOwner(fa) + " is set to nil at " + c.P.Pos(core.PosOf(at)) + " and assigned into here without a nil test: a call that follows (or overlaps) that one panics with 'assignment to entry in nil map'"})
 		})
 	}
